@@ -456,6 +456,11 @@ func (r *vRun) writeVideo(ti int) {
 		} else {
 			dts = t.lastDTS + []int64{3000, 4500}[verifChoice("vdeltac", 2)]
 		}
+	} else if verifParam("CONCRETE", 0) == 3 {
+		// constant frame duration (30 fps) from 0: protocol-flow harnesses
+		if t.hasDTS {
+			dts = t.lastDTS + 3000
+		}
 	} else if verifParam("CONCRETE", 0) == 1 {
 		// Low-Latency runs: frame durations from a small concrete table (the part-duration search
 		// over a symbolic sample duration is C19's lemma, not this harness)
